@@ -78,7 +78,8 @@ ObsClauses(r) ==
         V(r.logged[1] = r.written[1] /\ r.logged[2] = r.written[2], "LogsExact")
    \cup V(r.mode # "seq" \/ (r.forwarded[1] = r.written[1] /\ r.forwarded[2] = r.written[2]), "ForwardedExact")
    \cup V(r.mode # "par" \/ (r.forwarded[1] = <<>> /\ r.forwarded[2] = <<>>), "ParallelNotForwarded")
-   \cup V(r.argsPresent = r.argsNonEmpty /\ (~r.argsPresent \/ r.argsEqual), "ArgsRecordExact")
-   \cup V(r.optsPresent = r.optsNonEmpty /\ (~r.optsPresent \/ r.optsEqual), "OptionsRecordExact")
+   (* the records belong to a finished (exit 0) execution; after a failure they need not exist, but must not be wrong *)
+   \cup V((r.failed \/ r.argsPresent = r.argsNonEmpty) /\ (~r.argsPresent \/ r.argsEqual), "ArgsRecordExact")
+   \cup V((r.failed \/ r.optsPresent = r.optsNonEmpty) /\ (~r.optsPresent \/ r.optsEqual), "OptionsRecordExact")
    \cup V(r.extraBytes = 0, "NoExtraBytes")
 =============================================================================
